@@ -16,10 +16,10 @@ def explore(ctx):
                 'spec by rule from name + parameter list (engine/ovl/decls.py, exceptions listed in engine/ovl/exceptions.tsv); one generated wrapper per overload. '
                 'state = (overload, stride/index configuration, value pass); transition = one call of the overload; per call: element k of the result (in its layout: interleaved, '
                 'strided, indexed, planar registers) == scalar extension operation (coefficient-wise add/sub, schoolbook product mod x^3-x-1, __int128) on the k-th designated operands, '
-                'every other position of the result arena still holds its sentinel, inputs / index arrays unchanged; ASan build: every input array is an exact-size heap block. '
+                'every other position of the result arena still holds its sentinel, inputs / index arrays unchanged; alias forms (result object == operand object, both operands one object) judged against a snapshot of the operands taken before the call; ASan build: every input array is an exact-size heap block. '
                 'non-trivial = non-unit stride, non-identity index array or non-canonical operand')
     ctx.assumptions = ['the intended semantics of an overload is what its name and parameters promise under the rule of engine/ovl/decls.py; overloads the rule cannot classify are reported uncovered, never judged',
-                       'result carriers are not enumerated with colliding lanes (stride 0, stride < element size, repeated indices) and never alias an input',
+                       'result carriers are not enumerated with colliding lanes (stride 0, stride < element size, repeated indices); aliasing only in the whole-object forms listed per overload (c:a, c:b, a:b, c:a:b: same register object / same array with identical designated positions), never partially overlapping',
                        'operand values: a finite boundary alphabet in every position and relative rotation, not all of 2^64; lane arithmetic itself is the subject of C02/C11',
                        'oracle: unsigned __int128 arithmetic mod p, results compared as field elements (value mod p)']
     ovlcheck.explore(ctx, 'C16')
